@@ -25,15 +25,18 @@ pub struct ColorFont {
     pub base_slots: Vec<(usize, usize, u16)>,
     /// (base glyph id, absolute offset within COLR of a VarIndexBase field reachable from its root paint)
     pub var_fields: Vec<(u16, usize)>,
+    /// (base glyph id, absolute offset within COLR) of every paint record reachable from a root paint
+    pub paints: Vec<(u16, usize)>,
 }
 
 /// Byte-level walk over the paint graph (formats and child offsets from the COLR specification)
 /// collecting the VarIndexBase fields of variable paints.
-fn collect_var_fields(colr: &[u8], at: usize, layers: &[(usize, usize)], roots: &std::collections::BTreeMap<u16, usize>, depth: u32, seen: &mut std::collections::BTreeSet<usize>, out: &mut Vec<usize>) {
+fn collect_var_fields(colr: &[u8], at: usize, layers: &[(usize, usize)], roots: &std::collections::BTreeMap<u16, usize>, depth: u32, seen: &mut std::collections::BTreeSet<usize>, out: &mut Vec<usize>, paints: &mut Vec<usize>) {
     if depth > 24 || !seen.insert(at) {
         return;
     }
     let Some(fmt) = colr.get(at).copied() else { return };
+    paints.push(at);
     let off24 = |p: usize| -> Option<usize> { colr.get(p..p + 3).map(|b| ((b[0] as usize) << 16) | ((b[1] as usize) << 8) | b[2] as usize) };
     let vib = match fmt {
         3 => Some(5),
@@ -57,7 +60,7 @@ fn collect_var_fields(colr: &[u8], at: usize, layers: &[(usize, usize)], roots: 
                 for k in first..(first + n).min(layers.len()) {
                     let (slot, base) = layers[k];
                     if let Some(o) = be32(colr, slot) {
-                        collect_var_fields(colr, base + o as usize, layers, roots, depth + 1, seen, out);
+                        collect_var_fields(colr, base + o as usize, layers, roots, depth + 1, seen, out, paints);
                     }
                 }
             }
@@ -66,7 +69,7 @@ fn collect_var_fields(colr: &[u8], at: usize, layers: &[(usize, usize)], roots: 
             if at + 3 <= colr.len() {
                 let gid = u16::from_be_bytes([colr[at + 1], colr[at + 2]]);
                 if let Some(r) = roots.get(&gid) {
-                    collect_var_fields(colr, *r, layers, roots, depth + 1, seen, out);
+                    collect_var_fields(colr, *r, layers, roots, depth + 1, seen, out, paints);
                 }
             }
         }
@@ -75,18 +78,18 @@ fn collect_var_fields(colr: &[u8], at: usize, layers: &[(usize, usize)], roots: 
                 if at + t + 28 <= colr.len() {
                     out.push(at + t + 24);
                 }
-                collect_var_fields(colr, at + c, layers, roots, depth + 1, seen, out);
+                collect_var_fields(colr, at + c, layers, roots, depth + 1, seen, out, paints);
             }
         }
         32 => {
             if let (Some(a), Some(b)) = (off24(at + 1), off24(at + 5)) {
-                collect_var_fields(colr, at + a, layers, roots, depth + 1, seen, out);
-                collect_var_fields(colr, at + b, layers, roots, depth + 1, seen, out);
+                collect_var_fields(colr, at + a, layers, roots, depth + 1, seen, out, paints);
+                collect_var_fields(colr, at + b, layers, roots, depth + 1, seen, out, paints);
             }
         }
         10 | 12 | 14..=31 => {
             if let Some(c) = off24(at + 1) {
-                collect_var_fields(colr, at + c, layers, roots, depth + 1, seen, out);
+                collect_var_fields(colr, at + c, layers, roots, depth + 1, seen, out, paints);
             }
         }
         _ => {}
@@ -137,15 +140,20 @@ pub fn color_fonts() -> &'static [ColorFont] {
             }
             let roots: std::collections::BTreeMap<u16, usize> = base_slots.iter().filter_map(|(slot, base, gid)| be32(&colr, *slot).map(|o| (*gid, base + o as usize))).collect();
             let mut var_fields = Vec::new();
+            let mut paints = Vec::new();
             for (gid, root) in &roots {
                 let mut seen = std::collections::BTreeSet::new();
                 let mut out = Vec::new();
-                collect_var_fields(&colr, *root, &layer_slots, &roots, 0, &mut seen, &mut out);
+                let mut ps = Vec::new();
+                collect_var_fields(&colr, *root, &layer_slots, &roots, 0, &mut seen, &mut out, &mut ps);
                 for o in out {
                     var_fields.push((*gid, o));
                 }
+                for o in ps {
+                    paints.push((*gid, o));
+                }
             }
-            v.push(ColorFont { name: f.name.clone(), data: f.data, colr, n_glyphs, n_axes: fr.axes().len(), layer_slots, base_slots, var_fields });
+            v.push(ColorFont { name: f.name.clone(), data: f.data, colr, n_glyphs, n_axes: fr.axes().len(), layer_slots, base_slots, var_fields, paints });
         }
         v
     })
@@ -168,6 +176,16 @@ pub enum ColrFault {
     /// the child paint of a PaintGlyph that is base record r's root (or the first PaintGlyph among its
     /// PaintColrLayers layers) becomes PaintColrGlyph(glyph of record r): a certain self-cycle
     GlyphChildBecomesSelf { r: u32 },
+    /// base record r's root is PaintColrLayers: the child of the first PaintGlyph among its layers becomes
+    /// PaintColrLayers over the very same run (a certain cycle made only of layer runs and a PaintGlyph)
+    GlyphChildBecomesOwnLayers { r: u32 },
+    /// colour line of the k-th reachable gradient paint: extend byte := `extend` (values above 2 are not
+    /// defined), stop offsets rewritten (0 leave, 1 all equal to the first, 2 reversed, 3 all 0x7FFF)
+    ColorLine { k: u32, extend: u8, stops: u8 },
+    /// 16-bit scalar field `idx` of the k-th reachable paint record := v
+    PaintScalar { k: u32, idx: u32, v: u16 },
+    /// 32-bit Fixed component `idx` of the matrix of the k-th reachable PaintTransform := v
+    MatrixComponent { k: u32, idx: u32, v: u32 },
     BitFlip { bit: u32 },
     Truncate { keep_permille: u32 },
     /// a 32-bit field (offsets, variation index bases, counts) set to an extreme value
@@ -373,6 +391,106 @@ fn apply_faults(cf: &ColorFont, faults: &[ColrFault], touched: &mut Vec<u32>, st
                     }
                 }
             }
+            ColrFault::GlyphChildBecomesOwnLayers { r } if nb > 0 && nl > 0 => {
+                // the first base record at or after r whose root is a layer run
+                let pick = (0..nb.min(64)).map(|d| cf.base_slots[((*r % nb + d) % nb) as usize]).find(|(sr, bbase, _)| c.get((rd(&c, *sr) + *bbase as i64) as usize) == Some(&1));
+                let Some((sr, bbase, gid)) = pick else { continue };
+                let root = (rd(&c, sr) + bbase as i64) as usize;
+                if c.get(root) == Some(&1) && root + 6 <= c.len() {
+                    let n = c[root + 1] as usize;
+                    let first = be32(&c, root + 2).unwrap_or(0) as usize;
+                    let mut pg: Option<usize> = None;
+                    for k in first..(first + n).min(cf.layer_slots.len()) {
+                        let (sk, lbase) = cf.layer_slots[k];
+                        let at = (rd(&c, sk) + lbase as i64) as usize;
+                        if c.get(at) == Some(&10) {
+                            pg = Some(at);
+                            break;
+                        }
+                    }
+                    if let Some(pg) = pg {
+                        if pg + 6 <= c.len() {
+                            let child = pg + (((c[pg + 1] as usize) << 16) | ((c[pg + 2] as usize) << 8) | c[pg + 3] as usize);
+                            let apart = |a: usize, b: usize| a + 6 <= b || b + 6 <= a;
+                            if child + 6 <= c.len() && apart(child, pg) && apart(child, root) {
+                                let hdr: [u8; 6] = [c[root], c[root + 1], c[root + 2], c[root + 3], c[root + 4], c[root + 5]];
+                                c[child..child + 6].copy_from_slice(&hdr);
+                                stats.bump("fault.colr.paint_glyph_child_overwritten_with_own_layer_run");
+                                touched.push(gid as u32);
+                                touched.push(0x8000_0000 | gid as u32);
+                            }
+                        }
+                    }
+                }
+            }
+            ColrFault::ColorLine { k, extend, stops } => {
+                let grads: Vec<&(u16, usize)> = cf.paints.iter().filter(|(_, at)| matches!(cf.colr.get(*at), Some(4..=9))).collect();
+                if !grads.is_empty() {
+                    let (gid, at) = *grads[*k as usize % grads.len()];
+                    let var = cf.colr[at] % 2 == 1;
+                    if at + 4 <= c.len() {
+                        let cl = at + (((c[at + 1] as usize) << 16) | ((c[at + 2] as usize) << 8) | c[at + 3] as usize);
+                        if cl + 3 <= c.len() {
+                            c[cl] = *extend;
+                            let n = u16::from_be_bytes([c[cl + 1], c[cl + 2]]) as usize;
+                            let rec = if var { 10 } else { 6 };
+                            let pos = |i: usize| cl + 3 + i * rec;
+                            if n > 0 && pos(n - 1) + 2 <= c.len() {
+                                let offs: Vec<[u8; 2]> = (0..n).map(|i| [c[pos(i)], c[pos(i) + 1]]).collect();
+                                for i in 0..n {
+                                    let v = match stops {
+                                        1 => offs[0],
+                                        2 => offs[n - 1 - i],
+                                        3 => [0x7F, 0xFF],
+                                        _ => offs[i],
+                                    };
+                                    c[pos(i)..pos(i) + 2].copy_from_slice(&v);
+                                }
+                            }
+                            stats.bump("fault.colr.colour_line_extend_and_stops_rewritten");
+                            touched.push(gid as u32);
+                        }
+                    }
+                }
+            }
+            ColrFault::PaintScalar { k, idx, v } if !cf.paints.is_empty() => {
+                let (gid, at) = cf.paints[*k as usize % cf.paints.len()];
+                let fmt = cf.colr[at];
+                // (first scalar, record size without VarIndexBase)
+                let lay: Option<(usize, usize)> = match fmt {
+                    2 | 3 => Some((1, 5)),
+                    4 | 5 | 6 | 7 => Some((4, 16)),
+                    8 | 9 | 18 | 19 | 30 | 31 => Some((4, 12)),
+                    14 | 15 | 16 | 17 | 28 | 29 => Some((4, 8)),
+                    20 | 21 | 24 | 25 => Some((4, 6)),
+                    22 | 23 | 26 | 27 => Some((4, 10)),
+                    _ => None,
+                };
+                if let Some((start, size)) = lay {
+                    let n = (size - start) / 2;
+                    let p = at + start + 2 * (*idx as usize % n);
+                    if p + 2 <= c.len() {
+                        c[p..p + 2].copy_from_slice(&v.to_be_bytes());
+                        stats.bump("fault.colr.paint_scalar_set_to_boundary_value");
+                        touched.push(gid as u32);
+                    }
+                }
+            }
+            ColrFault::MatrixComponent { k, idx, v } => {
+                let ts: Vec<&(u16, usize)> = cf.paints.iter().filter(|(_, at)| matches!(cf.colr.get(*at), Some(12 | 13))).collect();
+                if !ts.is_empty() {
+                    let (gid, at) = *ts[*k as usize % ts.len()];
+                    if at + 7 <= c.len() {
+                        let m = at + (((c[at + 4] as usize) << 16) | ((c[at + 5] as usize) << 8) | c[at + 6] as usize);
+                        let p = m + 4 * (*idx as usize % 6);
+                        if p + 4 <= c.len() {
+                            c[p..p + 4].copy_from_slice(&v.to_be_bytes());
+                            stats.bump("fault.colr.transform_matrix_component_set_to_boundary_value");
+                            touched.push(gid as u32);
+                        }
+                    }
+                }
+            }
             ColrFault::BitFlip { bit } => {
                 if !c.is_empty() {
                     let i = (*bit as usize / 8) % c.len();
@@ -431,21 +549,47 @@ impl Engine for PaintMonitor {
         for _ in 0..nfaults {
             let a = rng.next_u32();
             let b = rng.next_u32();
-            faults.push(match rng.below(9) {
+            faults.push(match rng.below(12) {
+                9 => ColrFault::ColorLine { k: a, extend: *rng.pick(&[0u8, 1, 2, 3, 3, 4, 128, 255]), stops: rng.below(4) as u8 },
+                10 => ColrFault::PaintScalar { k: a, idx: b, v: *rng.pick(&[0u16, 1, 0x3FFF, 0x4000, 0x7FFF, 0x8000, 0x8001, 0xC000, 0xFFFF]) },
+                11 => ColrFault::MatrixComponent { k: a, idx: b, v: *rng.pick(&[0u32, 1, 0x0001_0000, 0x7FFF_FFFF, 0x8000_0000, 0x8000_0001, 0xFFFF_FFFF, 0xFFFF_0000]) },
                 0 => ColrFault::LayerToLayer { j: a, k: b },
                 1 | 2 => ColrFault::LayerToBase { j: a, r: b },
                 3 => ColrFault::BaseToBase { r: a, q: b },
                 4 => ColrFault::BaseToLayer { r: a, k: b },
                 5 => ColrFault::RootBecomesColrGlyph { r: a, q: if rng.chance(1, 3) { a } else { b } },
                 6 => ColrFault::LayerBecomesColrGlyph { k: a, q: b },
-                7 if rng.chance(1, 2) => ColrFault::GlyphChildBecomesSelf { r: a },
+                7 if rng.chance(1, 2) => {
+                    if rng.chance(1, 2) {
+                        ColrFault::GlyphChildBecomesSelf { r: a }
+                    } else {
+                        ColrFault::GlyphChildBecomesOwnLayers { r: a }
+                    }
+                }
                 8 if rng.chance(1, 3) => ColrFault::VarIndexBaseExtreme { k: a, v: *rng.pick(&[0xFFFF_FFFEu32, 0xFFFF_FFFD, 0xFFFF_FFF0, 0x7FFF_FFFF, 0x0001_0000]) },
                 8 if rng.chance(1, 2) => ColrFault::ExtremeField { at: a, v: *rng.pick(&[0xFFFF_FFFFu32, 0xFFFF_FFFE, 0x7FFF_FFFF, 0x8000_0000, 0x00FF_FFFF]) },
                 7 => ColrFault::BitFlip { bit: rng.below(cf.colr.len() as u64 * 8) as u32 },
                 _ => ColrFault::Truncate { keep_permille: 200 + rng.below(800) as u32 },
             });
         }
-        let coords = if cf.n_axes > 0 && rng.chance(2, 3) { (0..cf.n_axes).map(|_| *rng.pick(&[-16384i16, -8192, 0, 3000, 8192, 16384])).collect() } else { vec![] };
+        const STEPS: [i16; 6] = [-16384, -8192, 0, 3000, 8192, 16384];
+        let coords: Vec<i16> = if cf.n_axes > 0 && rng.chance(3, 4) {
+            match rng.below(3) {
+                0 => (0..cf.n_axes).map(|_| *rng.pick(&STEPS)).collect(),
+                1 => {
+                    // one or two axes away from the default
+                    let mut v = vec![0i16; cf.n_axes];
+                    for _ in 0..1 + rng.below(2) {
+                        let i = rng.usize_below(cf.n_axes);
+                        v[i] = if rng.chance(1, 2) { *rng.pick(&STEPS) } else { rng.below(32769) as i16 - 16384 };
+                    }
+                    v
+                }
+                _ => (0..cf.n_axes).map(|_| (rng.below(32769) as i32 - 16384) as i16).collect(),
+            }
+        } else {
+            vec![]
+        };
         let glyphs = (0..rng.below(6)).map(|_| rng.below(cf.n_glyphs as u64 + 1) as u32).collect();
         let cache_answers = match rng.below(4) {
             0 => vec![],
